@@ -11,7 +11,14 @@ N == Len(Trace)
 VARIABLES l, bad, mach
 vars == <<l, bad, mach>>
 G(e) == [n \in DOMAIN e.c.g |-> e.c.g[n]]
+\* "ladder" graphs (every mapping reachable along exponentially many merge paths; the rule-shaped Entries would walk them
+\* all): judged on time and on the key set only - every level's key exactly once
+TimeOnly(e) == "timeonly" \in DOMAIN e.c /\ e.c.timeonly
+LadderOK(e) == /\ ~e.panic /\ ~e.timeout /\ ~e.crash /\ ~e.err
+               /\ e.result.t = "m" /\ Len(e.result.kv) = Len(e.c.wantkeys)
+               /\ {e.result.kv[i][1] : i \in 1..Len(e.result.kv)} = {e.c.wantkeys[i] : i \in 1..Len(e.c.wantkeys)}
 EventOK(e) ==
+    IF TimeOnly(e) THEN LadderOK(e) ELSE
     LET sem == SemNode(G(e), {}, e.c.root) IN
     /\ ~e.panic /\ ~e.timeout /\ ~e.crash                   \* bounded time, no panic, no stack overflow
     /\ e.err = sem.err                                       \* rejected exactly when aliases form a value cycle
